@@ -1,16 +1,23 @@
 #!/bin/bash
-# try_mutant.sh <patch> <prop> [tier]   apply patch to /repo, run the check, revert. Prints the verdict.
+# try_mutant.sh <patch> <prop> [tier]
+# Applies the patch to a scratch worktree of /repo (never to /repo itself), checks that it builds and
+# passes the existing tests, runs the check against it with all outputs in a scratch dir, removes both.
 patch=$(readlink -f "$1"); prop=$2; tier=${3:-quick}
-cd /repo || exit 9
-git diff --quiet || { echo "/repo dirty"; exit 9; }
-git apply "$patch" || { echo "patch does not apply"; exit 9; }
-trap 'git -C /repo checkout -- . ; git -C /repo clean -fdq' EXIT
+name=$(basename "$patch" .patch)
+wt=/tmp/mut-wt-$name-$$; out=/tmp/mut-out-$name-$$
 export GOFLAGS=-mod=mod GOPROXY=off GOSUMDB=off GOTOOLCHAIN=local
+git -C /repo worktree add -q --detach "$wt" HEAD || exit 9
+cleanup() { git -C /repo worktree remove --force "$wt" 2>/dev/null; rm -rf "$out" "$wt"; }
+trap cleanup EXIT
+( cd "$wt" && git apply "$patch" ) || { echo "$name: PATCH-DOES-NOT-APPLY"; exit 9; }
 if [ -z "${SKIP_TESTS:-}" ]; then
-  go build ./... >/dev/null 2>&1 || { echo "MUTANT-DOES-NOT-BUILD"; exit 8; }
-  go test -vet=off -count=1 ./... >/dev/null 2>&1 || { echo "MUTANT-FAILS-EXISTING-TESTS"; exit 7; }
+  ( cd "$wt" && go build ./... ) >/dev/null 2>&1 || { echo "$name: MUTANT-DOES-NOT-BUILD"; exit 8; }
+  ( cd "$wt" && go test -vet=off -count=1 ./... ) >/dev/null 2>&1 || { echo "$name: MUTANT-FAILS-EXISTING-TESTS"; exit 7; }
 fi
-out=$(/verif/check.sh "$prop" "$tier" 2>&1); rc=$?
-echo "$out" | grep -E "^(VIOLATION|KNOWN-FINDING|HARNESS-TROUBLE|OK|violation class|phase)" | head
-echo "rc=$rc"
+mkdir -p "$out"
+res=$(VERIF_REPO="$wt" VERIF_OUT="$out" /verif/check.sh "$prop" "$tier" 2>&1); rc=$?
+line=$(echo "$res" | grep -E "^(violation class|HARNESS-TROUBLE|OK )" | head -1)
+runs=$(echo "$res" | grep -E "^phase" | tr '\n' ' ')
+echo "$name [$prop]: rc=$rc $line | $runs"
+if [ -n "${KEEP_REPLAY:-}" ] && [ $rc -eq 1 ]; then cp "$out"/replays/*.json "$KEEP_REPLAY/" 2>/dev/null; fi
 exit $rc
